@@ -60,6 +60,14 @@ impl<'a, T: ColumnProvider> ExpressionExecutionEngine<'a, T> {
                 }
 
                 if !left_value.is_null() && !right_value.is_null() {
+                    match (left_value.value_type(), right_value.value_type()) {
+                        (Some(ValueType::Int), Some(ValueType::Float)) | (Some(ValueType::Float), Some(ValueType::Int)) => {}
+                        (Some(left_type), Some(right_type)) if left_type != right_type => {
+                            return Err(EvaluationError::TypeError(left_type, right_type));
+                        }
+                        _ => {}
+                    }
+
                     let ordering = compare_values(&left_value, &right_value);
 
                     match operator {
